@@ -304,6 +304,17 @@ def shard_files(desc, rec):
         if absent:
             mk(pb, specs + [C.small_block_spec(rng, rng.choice(absent), 1)])
             cmp(False, "one-block-added")
+        # slot count and version are part of file equality: same blocks in a table of another length / version
+        if i % 3 == 0:
+            blocks = [{"type": rc.TYPE_CODES[s_["t"]], "format": s_["format"], "payload": rc.encode_block(s_),
+                       "cdate": 10 ** 9, "mdate": 10 ** 9, "adate": 10 ** 9, "comment": "eq"} for s_ in specs]
+            n1 = max(len(blocks), 1) + rng.randint(0, 3)
+            variants = [("other-slot-count", n1 + rng.randint(1, 3), 1, False), ("other-version", n1, 2, False),
+                        ("same-table", n1, 1, True)]
+            open(pa, "wb").write(rc.encode_container(n1, blocks, 1))
+            for name, n2, ver, want in variants:
+                open(pb, "wb").write(rc.encode_container(n2, blocks, ver, hdates=(5, 6, 7), free_comment="other"))
+                cmp(want, name)
         for p in (pa, pb):
             if os.path.exists(p):
                 os.unlink(p)
